@@ -34,18 +34,19 @@ EmptyStore == [trie |-> <<>>, ls |-> <<>>, lastId |-> 0, wlog |-> <<>>]
 
 (***************************************************************************)
 (* Primitive writes.  Every storage.write the code issues is one of these, *)
-(* appended to wlog in program order: the write list of a request is the   *)
-(* suffix of wlog it produced.  idx = Len+1 is an append.                  *)
+(* appended to wlog in program order WITH ITS CONTENT: the write list of a  *)
+(* request is the suffix of wlog it produced (applying a prefix of it gives *)
+(* the files after a crash, module TraphCrash).  idx = Len+1 is an append.  *)
 (***************************************************************************)
 WT(st, b, blk) ==
   [st EXCEPT !.trie = IF b = Len(@) + 1 THEN Append(@, blk) ELSE [@ EXCEPT ![b] = blk],
-             !.wlog = Append(@, [f |-> "T", i |-> b, app |-> b = Len(st.trie) + 1])]
+             !.wlog = Append(@, [f |-> "T", i |-> b, app |-> b = Len(st.trie) + 1, b |-> blk])]
 WL(st, k, stub) ==
   [st EXCEPT !.ls = IF k = Len(@) + 1 THEN Append(@, stub) ELSE [@ EXCEPT ![k] = stub],
-             !.wlog = Append(@, [f |-> "L", i |-> k, app |-> k = Len(st.ls) + 1])]
+             !.wlog = Append(@, [f |-> "L", i |-> k, app |-> k = Len(st.ls) + 1, b |-> stub])]
 WH(st, id) ==
   [st EXCEPT !.lastId = id,
-             !.wlog = Append(@, [f |-> "H", i |-> 0, app |-> FALSE])]
+             !.wlog = Append(@, [f |-> "H", i |-> 0, app |-> FALSE, b |-> id])]
 
 (* write a brand new node (head + tail blocks) at the end of the trie *)
 RECURSIVE AppendTails(_, _, _)
